@@ -183,6 +183,10 @@ func checkC19(c *Ctx) {
 		if part == "strings" {
 			continue // R1's dependency, reported there
 		}
+		if !found {
+			c.undecided("C19.R3", "premise C04.R4 produced no obligation for "+part+" (its anchors were lost)")
+			continue
+		}
 		c.ob("C19.R3", "Value.ToString/"+part, "-", found && ok, map[bool]string{true: "the display form of " + part + " is the one the parsers invert (C04.R4 holds)", false: "the display form of " + part + " is not the one number()/bool() invert (C04.R4 fails or lost its anchor): a value would not survive string() followed by number()/bool()"}[found && ok])
 	}
 }
